@@ -414,7 +414,7 @@ func (l *logMid) EstimatedTags() int { return l.next.EstimatedTags() }
 // Metrics (the filler lines) travel through parser, cloud stage and tag stage and stop here: the last stage's
 // metric side is not under test and must not be written to while the case is being torn down.
 func (l *logMid) DispatchMetricMap(ctx context.Context, mm *gostatsd.MetricMap) {}
-func (l *logMid) WaitForEvents() { l.next.WaitForEvents() }
+func (l *logMid) WaitForEvents()                                                { l.next.WaitForEvents() }
 func (l *logMid) DispatchEvent(ctx context.Context, e *gostatsd.Event) {
 	l.h.mu.Lock()
 	id := l.h.identify(e.Title, e.Text, l.h.usedM, true)
@@ -1021,7 +1021,21 @@ func run() {
 // ---------------------------------------------------------------------------------------- gen
 
 var titles = []string{"", "T", "deploy", "a|b", "title with spaces", "é✓", "x:y", "_e{1,1}:a|b", "#tag", "|", "\\"}
-var texts = []string{"", "t", "line1\nline2", "\n", "\n\nend\n", "a|b|c", "d:12|#x", "back\\slash", "tab\there", "ünï", "trailing\\"}
+var texts = []string{"", "t", "line1\nline2", "\n", "\n\nend\n", "a|b|c", "d:12|#x", "back\\slash", "tab\there", "ünï", "trailing\\",
+	"C:\\temp\\\nnext", "\\\n", "x\\\\\ny", "\\\\\nq\\\nr\\"}
+
+// escText draws a text over the alphabet that matters to the newline escape: backslashes, line breaks, 'n'
+func escText(r *hx.Rng) string {
+	alpha := []string{"\\", "\n", "n", "a", "|", "\\\n"}
+	n := 1 + r.Intn(8)
+	var b strings.Builder
+	for i := 0; i < n; i++ {
+		b.WriteString(hx.Pick(r, alpha))
+	}
+	// a literal backslash-n pair is outside the domain of the escape (it reads back as a line break)
+	return strings.ReplaceAll(b.String(), "\\n", "\\xn")
+}
+
 var keys = []string{"", "k1", "agg key", "a:b", "é"}
 var srcTypes = []string{"", "nagios", "my apps", "s:t"}
 var hosts = []string{"", "spoofed-host", "10.9.9.9"}
@@ -1044,6 +1058,9 @@ func genTags(r *hx.Rng, allowEmpty bool) []string {
 
 func genEvent(r *hx.Rng, i int, route string, binary bool) evT {
 	e := evT{route: route, title: hx.Pick(r, titles), text: hx.Pick(r, texts)}
+	if r.Chance(1, 5) {
+		e.text = escText(r)
+	}
 	if binary && r.Chance(1, 6) {
 		e.title += string([]byte{0xff, 0xfe, 'z'})
 	}
